@@ -89,7 +89,10 @@ class Harness(cm.BaseA):
         if W.get("n", 0) > 1:
             return ev
         # long scripts (block-wise writers, buffer boundaries): only from states reached by <= 1 event
-        return ev + [["save", "w.gwl", "str", 1023], ["save", "w.gwl", "Path", 1024], ["save", "w.gwl", "str", 1025], ["save", "W.GWL", "str", 4097], ["save", "other.gwl", "Path", 8193]]
+        ns = [1023, 1024, 1025, 4097, 8193]
+        if W.get("n", 0) == 0:
+            ns = sorted(set(list(range(2, 260)) + list(range(300, 5001, 100)) + [2**k + d for k in range(8, 15) for d in (-1, 0, 1)] + [10000]))
+        return ev + [["save", ("w.gwl", "W.GWL", "other.gwl")[n % 3], ("str", "Path")[n % 2], n] for n in ns]
 
     def canon(self, W, config):
         import hashlib
